@@ -123,6 +123,29 @@ def run(rep, model, tier, seed, broken=()):
                     rep.violation(dict(kind=prob["what"], diff=prob, case=pipe.case_json(dict(data=data))))
             else:
                 outside.append((data, prob))
+    # (c) balanced CMakePP / CMakeTest modules (function/macro and class blocks balanced, member and test
+    # declarations with their implementing definitions at every nesting position): processed to completion
+    import gen
+    from props.common_ast import walk
+    nmods = 150 if tier == "quick" else 6000
+    rng3 = core.rng_for(seed, "C05", "modules")
+    ncrash = 0
+    for i in range(nmods):
+        mod = gen.gen_module(rng3, budget=rng3.choice([4, 8, 16, 30]), max_depth=5,
+                             weights=dict(defn=4, test=3, klass=2.5, block=2))
+        if any(n.get("rawargs") is not None for n in walk(mod["body"])):
+            continue            # deliberately malformed arity
+        c = pipe.ast_case(mod, rng3, trivia_p=rng3.choice([0, 0.2]))
+        ir = pipe.impl_run(c, capture=False)
+        rep.count_case(c["data"], True)
+        rep.dist("files:balanced-cmakepp-modules")
+        if ir["status"] != "ok":
+            ncrash += 1
+            nbad += 1
+            if ncrash <= 2:
+                rep.violation(dict(kind="Documenter.process() failed on a balanced CMakePP module",
+                                   diff=dict(impl=ir["status"], exc=ir["exc"]),
+                                   case=pipe.case_json({k: v for k, v in c.items() if k != "ast"})))
     rep.coverage["disagreements"] = nbad
     rep.coverage["correspondence"]["parse tree vs reference invocations vs Model.Parser"] = len(files)
     rep.sample(dict(file=pipe.decode_preview(files[0][0], 300), invocations=files[0][1][:3]))
